@@ -439,6 +439,10 @@ func checkC06(c *Ctx) {
 		okArgs := len(v.Args) == 5 && v.Args[1].IsCall("SeatManager.CurrentBBSeatID") && v.Args[2].Strip().IsField("TableMeta", "TableMaxSeatCount") &&
 			v.Args[3].Strip().IsField("TableState", "PlayerStates") && v.Args[4].Strip().IsField("TableState", "SeatMap")
 		c.Check(okArgs, "R5", "next-bb-arguments", p.InstrPos(nbStore.Instr), "(current BB seat, seat count, players, seat map)", "the next-BB computation is not given the seat manager's current BB seat, the table's seat count, player list and seat map: "+v.String())
+		if len(nb.Params) != 5 {
+			c.Bad("R5", "next-bb-scan", p.Pos(nb.Pos()), "the next-BB computation no longer takes (current BB seat, seat count, player list, seat map): the scan shape cannot be decided")
+			goto r6
+		}
 		bbP, nP, plP, smP := nb.Params[1], nb.Params[2], nb.Params[3], nb.Params[4]
 		n := 0
 		for _, ci := range Calls(nb) {
@@ -516,6 +520,7 @@ func checkC06(c *Ctx) {
 		c.Min("R5", "appends in the next-BB scan", n, 1)
 	}
 
+r6:
 	// ---------------- R6
 	pairs := map[string]string{"CurrentDealerSeat": "SeatManager.CurrentDealerSeatID", "CurrentSBSeat": "SeatManager.CurrentSBSeatID", "CurrentBBSeat": "SeatManager.CurrentBBSeatID"}
 	for field, getter := range pairs {
